@@ -2,6 +2,7 @@ package main
 
 import (
 	"reflect"
+	"time"
 
 	"github.com/uhppoted/uhppote-core/types"
 	"github.com/uhppoted/uhppote-core/uhppote"
@@ -50,8 +51,23 @@ func apiCase(s *Sink, cfg Cfg, oc OpCase, sc Script, class string, cl *clientSta
 	}
 	cl.f.script = sc
 	cl.f.calls = nil
+	lastValue = nil
 	res := safeCall(func() string { return oc.Run(cl.u) })
 	calls := cl.f.calls
+	// every sixth call: the caller overwrites everything reachable from the returned value, then makes the same call
+	// again - the second result is the same (no storage shared between the results of different calls)
+	apiCaseCount++
+	if v := lastValue; v != nil && apiCaseCount%6 == 0 && res != "RPanic" {
+		func() {
+			defer func() { recover() }()
+			scribbleValue(reflect.ValueOf(v), 0)
+		}()
+		cl.f.calls = nil
+		if res2 := safeCall(func() string { return oc.Run(cl.u) }); res2 != res {
+			s.Fail(map[string]any{"op": oc.Name, "opcoq": oc.Coq, "cfgcoq": cfg.coq(), "script": sc.coq(), "first": res, "second": res2},
+				"the same call returned a different result after the caller had overwritten the value returned by the first call (results share storage)")
+		}
+	}
 	term := "CApi " + cfg.coq() + " (" + oc.Coq + ") " + sc.coq() + " " + res + " " + callsCoq(calls)
 	js := map[string]any{"op": oc.Name, "opcoq": oc.Coq, "cfg": cfg.json(), "cfgcoq": cfg.coq(), "script": sc.coq(), "result": res, "calls": callsCoq(calls)}
 	s.Add(term, js, class, nontrivial)
@@ -66,4 +82,49 @@ type clientState struct {
 func newClient(cfg Cfg) *clientState {
 	f := &fakeDriver{}
 	return &clientState{f: f, u: cfg.client(f)}
+}
+
+var apiCaseCount int
+
+// overwrite every slice element and map entry reachable from v (what a caller may legitimately do with a result)
+func scribbleValue(v reflect.Value, depth int) {
+	if !v.IsValid() || depth > 6 {
+		return
+	}
+	switch v.Kind() {
+	case reflect.Pointer, reflect.Interface:
+		if !v.IsNil() {
+			scribbleValue(v.Elem(), depth+1)
+		}
+	case reflect.Struct:
+		if v.Type() == reflect.TypeOf(time.Time{}) {
+			return
+		}
+		for i := 0; i < v.NumField(); i++ {
+			if v.Type().Field(i).IsExported() {
+				scribbleValue(v.Field(i), depth+1)
+			}
+		}
+	case reflect.Slice, reflect.Array:
+		for i := 0; i < v.Len(); i++ {
+			e := v.Index(i)
+			switch e.Kind() {
+			case reflect.Uint8, reflect.Uint16, reflect.Uint32, reflect.Uint64, reflect.Uint:
+				if e.CanSet() {
+					e.SetUint(e.Uint() ^ 0x5a)
+				}
+			case reflect.String:
+				if e.CanSet() {
+					e.SetString("scribbled")
+				}
+			default:
+				scribbleValue(e, depth+1)
+			}
+		}
+	case reflect.Map:
+		for _, k := range v.MapKeys() {
+			scribbleValue(v.MapIndex(k), depth+1)
+			v.SetMapIndex(k, reflect.Value{}) // delete
+		}
+	}
 }
